@@ -637,6 +637,10 @@ class Representation(RepresentationBaseType):
             seg_duration = timeline.duration / float(len(timeline.segments))
         if timeline is not None:
             num_segments = len(self.segmentTemplate.segmentTimeline.segments)
+            if not self.elt.check_greater_than(
+                    num_segments, 0,
+                    msg='SegmentTimeline does not describe any segment'):
+                return
             decode_time = timeline.segments[0].start
         else:
             num_segments = math.floor(self.mpd.timeShiftBufferDepth.total_seconds() *
